@@ -1,6 +1,6 @@
 #!/bin/sh
-# Must-fail corpus: every seeded change in /verif/seeded must make the check of its property exit 1
-# (except those recorded as missed in DESIGN.md section 7), and /repo must be clean afterwards.
+# Must-fail corpus: every seeded change in /verif/seeded must make the check of its property exit 1,
+# and /repo must be clean afterwards.
 # usage: tools/selftest.sh [seed...]
 cd /verif
 seeds="$@"; [ -z "$seeds" ] && seeds=$(ls seeded)
@@ -9,6 +9,6 @@ for s in $seeds; do
   p=$(python3 -c "import json;print(json.load(open('seeded/$s/meta.json'))['property'])")
   out=$(tools/tryseed.sh $s $p 2>&1 | head -1)
   echo "$out"
-  case "$out" in *exit=1*) ;; *) case "$s" in C12a|C10a|C17a) echo "  (recorded as missed / outside the decided clauses)";; *) rc=1;; esac;; esac
+  case "$out" in *exit=1*) ;; *) rc=1;; esac
 done
 exit $rc
